@@ -93,23 +93,23 @@ void pl_lemma_nday_lift(void)
   USE(lemma_div400_REQ(y), lemma_div400_ENS(y), "div400(y)");
   STEP(LIFT_RY(y, ey, oey) == E + 400 * k1, "result year = E + 400 k1");
   STEP((Z)y == (Z)oey + 400 * k0, "y = oey + 400 k0");
-  USE(lemma_period_REQ(E, k1, m1, (int)d1), lemma_period_ENS(E, k1, m1, (int)d1), "period(E,k1)");
+  USE(lemma_period_REQ(E, k1, m1, d1), lemma_period_ENS(E, k1, m1, d1), "period(E,k1)");
   USE(lemma_period_REQ((Z)oey, k0, m0, 1), lemma_period_ENS((Z)oey, k0, m0, 1), "period(oey,k0)");
-  USE(lemma_cong_REQ(LIFT_RY(y, ey, oey), E + 400 * k1, m1, (int)d1), lemma_cong_ENS(LIFT_RY(y, ey, oey), E + 400 * k1, m1, (int)d1), "cong(RY)");
+  USE(lemma_cong_REQ(LIFT_RY(y, ey, oey), E + 400 * k1, m1, d1), lemma_cong_ENS(LIFT_RY(y, ey, oey), E + 400 * k1, m1, d1), "cong(RY)");
   USE(lemma_cong_REQ(y, (Z)oey + 400 * k0, m0, 1), lemma_cong_ENS(y, (Z)oey + 400 * k0, m0, 1), "cong(y)");
-  STEP(ORD(E, m1, (int)d1) == (Z)ORD_I((int)E, m1, (int)d1), "small ordinal of E agrees with ORD_I");
+  STEP(ORD(E, m1, d1) == (Z)ORD_I((int)E, m1, (int)d1), "small ordinal of E agrees with ORD_I");
   STEP(ORD((Z)oey, m0, 1) == (Z)ORD_I((int)oey, m0, 1), "small ordinal of oey agrees with ORD_I");
-  USE(lemma_lin_lift_REQ(ORD(LIFT_RY(y, ey, oey), m1, (int)d1), ORD(E + 400 * k1, m1, (int)d1), ORD(E, m1, (int)d1),
+  USE(lemma_lin_lift_REQ(ORD(LIFT_RY(y, ey, oey), m1, d1), ORD(E + 400 * k1, m1, d1), ORD(E, m1, d1),
                          ORD(y, m0, 1), ORD((Z)oey + 400 * k0, m0, 1), ORD((Z)oey, m0, 1),
                          ORD_I((int)E, m1, (int)d1), ORD_I((int)oey, m0, 1), k0, k1, cd0 / 146097, d0 / 146097, cd0 % 146097, d0 % 146097, d0, cd0),
-      lemma_lin_lift_ENS(ORD(LIFT_RY(y, ey, oey), m1, (int)d1), ORD(E + 400 * k1, m1, (int)d1), ORD(E, m1, (int)d1),
+      lemma_lin_lift_ENS(ORD(LIFT_RY(y, ey, oey), m1, d1), ORD(E + 400 * k1, m1, d1), ORD(E, m1, d1),
                          ORD(y, m0, 1), ORD((Z)oey + 400 * k0, m0, 1), ORD((Z)oey, m0, 1),
                          ORD_I((int)E, m1, (int)d1), ORD_I((int)oey, m0, 1), k0, k1, cd0 / 146097, d0 / 146097, cd0 % 146097, d0 % 146097, d0, cd0),
       "lin_lift");
-  USE(lemma_ordyear_REQ(LIFT_RY(y, ey, oey), m1, (int)d1), lemma_ordyear_ENS(LIFT_RY(y, ey, oey), m1, (int)d1), "ordyear(RY)");
-  USE(lemma_lin_fits_REQ(LIFT_RY(y, ey, oey), ORDY(LIFT_RY(y, ey, oey)), ORDY((Z)(LIFT_RY(y, ey, oey)) + 1), ORD(LIFT_RY(y, ey, oey), m1, (int)d1),
+  USE(lemma_ordyear_REQ(LIFT_RY(y, ey, oey), m1, d1), lemma_ordyear_ENS(LIFT_RY(y, ey, oey), m1, d1), "ordyear(RY)");
+  USE(lemma_lin_fits_REQ(LIFT_RY(y, ey, oey), ORDY(LIFT_RY(y, ey, oey)), ORDY((Z)(LIFT_RY(y, ey, oey)) + 1), ORD(LIFT_RY(y, ey, oey), m1, d1),
                          NDAY_T(y, m0, d0, cd0), ORD_MIN, ORD_MAX),
-      lemma_lin_fits_ENS(LIFT_RY(y, ey, oey), ORDY(LIFT_RY(y, ey, oey)), ORDY((Z)(LIFT_RY(y, ey, oey)) + 1), ORD(LIFT_RY(y, ey, oey), m1, (int)d1),
+      lemma_lin_fits_ENS(LIFT_RY(y, ey, oey), ORDY(LIFT_RY(y, ey, oey)), ORDY((Z)(LIFT_RY(y, ey, oey)) + 1), ORD(LIFT_RY(y, ey, oey), m1, d1),
                          NDAY_T(y, m0, d0, cd0), ORD_MIN, ORD_MAX),
       "lin_fits");
   STEP((Z)ry == LIFT_RY(y, ey, oey), "wrapped sum is the sum");
